@@ -10,11 +10,12 @@ DRIVER = "drv_engine"
 HARNESS_BIN = "engine"
 SINGLE = ["f1", "f14"]
 PARTIAL = [
-    "core_sound / core_history_sound: proved for the core model = programs of input and normal queries with ordered "
-    "single reads (static rank = key index). Firewall / projection / external nodes, transitive-firewall-callee sets, "
-    "backward projection and unordered groups are in the full model (Model/Engine.lean), which is tied to the code "
-    "by correspondence only; its soundness is refuted as-is (known findings F1, F14) and not yet proved for the "
-    "repaired configuration (C01_full_statement).",
+    "core_query_sound / core_session_inv / core_history_sound / core_*_no_out_of_fuel are proved in full for the core "
+    "model = programs of input and normal queries with ordered single reads and dynamic dependency sets (static rank = "
+    "key index). Firewall / projection / external nodes, transitive-firewall-callee sets, backward projection and "
+    "unordered groups live in the full model (Model/Engine.lean), which is tied to the code by correspondence; its "
+    "soundness is refuted as-is (known findings F1, F14: canonical replays) and not yet proved for the repaired "
+    "configuration.",
 ]
 ASSUMPTIONS = [
     "fingerprints are injective on the values of a run (value = fingerprint in the models; C13)",
